@@ -3,6 +3,7 @@ package fuse
 import (
 	"context"
 	"fmt"
+	"io"
 	"math"
 	"os"
 	"sync"
@@ -503,10 +504,11 @@ func (fs *fsMutable) ReadFile(
 
 	fs.backingFiles[op.Inode] = &file
 	op.BytesRead, err = file.ReadAt(op.Dst, op.Offset)
-	if err != nil {
+	if err != nil && err != io.EOF {
 		return jfuse.EIO
 	}
-	return
+	// reaching the end of the file before the buffer is full is a short read, not an error
+	return nil
 }
 
 func (fs *fsMutable) WriteFile(
